@@ -290,6 +290,8 @@ impl Registers {
     /// If a plugin needs state, it creates a `struct Register : Default` and accesses it via
     /// `get_mut`.
     pub fn get_mut<T: std::any::Any + Default>(&self) -> std::cell::RefMut<'_, T> {
+        #[cfg(feature = "verif-hooks")]
+        crate::verif::yield_point("registers.get");
         std::cell::RefMut::map(self.registers.borrow_mut(), |registers| {
             registers.entry::<T>().or_default()
         })
